@@ -56,7 +56,7 @@ var Check = &vrt.Check{
 	Level: "fault_enumeration",
 	Rule: "for each (sender kind, message) the fault-free session is recorded and the SOH..EOT range located; then one session per alteration: XOR 0x01, XOR 0x80 and +1 at every offset, " +
 		"every other byte value at every structural offset (transfer header, STX/length bytes, EOT, checksum, the payload's 6-byte header) and the special bytes 00 01 02 04 0D '0' FF at every data offset (thorough: every value at every offset of message class 1), " +
-		"deletion and insertion (0x00, 0xFF) at every offset, well-formed multi-byte alterations (extra/repeated/dropped/split/grown/shrunk blocks with the 8-bit checksum kept valid, title/offset fields resized with the header length adjusted), and PRNG checksum-compensating pairs (+d at i, -d at j) over the payload incl. its 6-byte CRC/size header. " +
+		"deletion and insertion (0x00, 0xFF) at every offset, well-formed multi-byte alterations (extra/repeated/dropped/split/grown/shrunk blocks with the 8-bit checksum kept valid, title/offset fields resized with the header length adjusted, two data bytes exchanged), and PRNG checksum-compensating pairs (+d at i, -d at j) over the payload incl. its 6-byte CRC/size header. " +
 		"non-trivial = the altered session got as far as the damaged frame; distinct = (leg, message, alteration)",
 	Assumptions: []string{
 		"an alteration that the independent reference accepts as a fully valid transfer (e.g. an edit of the unprotected title text, a 2^-16 CRC collision) is excluded; if the library then delivers, the content must equal what the reference decoded",
@@ -787,6 +787,26 @@ func run(c vrt.Case) vrt.Obs {
 				// and with the checksum byte itself adjusted (no data byte touched: the content stays what the sender compressed)
 				try(fmt.Sprintf("crc=%02x%02x+checksum", v, v), []vpipe.Edit{{Off: int64(dpos[0]), Del: 1, Ins: []byte{v}}, {Off: int64(dpos[1]), Del: 1, Ins: []byte{v}},
 					{Off: int64(eot + 1), Del: 1, Ins: []byte{t.stream[eot+1] + delta}}})
+			}
+		}
+		// two data bytes exchanged (the 8-bit sum does not care about order): the two bytes of the CRC-16 field, its neighbours
+		// in the 6-byte CRC/size header, and bytes late in the stream
+		if len(f.Blocks) > 0 && len(f.Data) > 24 {
+			var dpos []int
+			o2 := hdrEnd
+			for _, bl := range f.Blocks {
+				for j := 0; j < bl; j++ {
+					dpos = append(dpos, o2+2+j)
+				}
+				o2 += 2 + bl
+			}
+			n := len(dpos)
+			for _, pr := range [][2]int{{0, 1}, {1, 2}, {2, 3}, {3, 4}, {4, 5}, {0, 5}, {0, 2}, {1, 5}, {5, 6}, {n - 2, n - 1}, {n - 3, n - 2}, {n - 12, n - 4}, {6, n - 1}} {
+				a, b := dpos[pr[0]], dpos[pr[1]]
+				if t.stream[a] == t.stream[b] {
+					continue
+				}
+				try(fmt.Sprintf("swap@%d-%d", pr[0], pr[1]), []vpipe.Edit{{Off: int64(a), Del: 1, Ins: []byte{t.stream[b]}}, {Off: int64(b), Del: 1, Ins: []byte{t.stream[a]}}})
 			}
 		}
 		// the title grown / shrunk with the header length byte adjusted (the reference accepts a different title text)
